@@ -278,10 +278,20 @@ func (c *Real32) Log1p(a ConstScalar) Scalar {
   return c.monadicLazy(a, v0, f1, f2)
 }
 func (c *Real32) Logistic(a ConstScalar) Scalar {
-  c.Neg(a)
-  c.Exp(c)
-  c.Add(ConstFloat32(1.0), c)
-  c.Div(ConstFloat32(1.0), c)
+  if a.GetFloat64() >= 0 {
+    c.Neg(a)
+    c.Exp(c)
+    c.Add(ConstFloat32(1.0), c)
+    c.Div(ConstFloat32(1.0), c)
+  } else {
+    // exp(-a) overflows for large negative a and
+    // the derivatives become Inf/Inf
+    t := NullReal32()
+    t.Exp(a)
+    c.Set(t)
+    t.Add(t, ConstFloat32(1.0))
+    c.Div(c, t)
+  }
   return c
 }
 func (c *Real32) Erf(a ConstScalar) Scalar {
